@@ -8,6 +8,12 @@ HARNESSES = [
     defs={'quick': {'NB': 5, 'FIXPREFIX': p}, 'thorough': {'NB': 7, 'FIXPREFIX': p}}, unwind={'quick': 40, 'thorough': 40}, object_bits=10,
     bounds='attribute names of 1..5 (7) bytes over {a d e f i n s o r p E S . _ blank newline}, %s the SELF\\\\ prefix; real BUFSIZ (a copy loop that runs past the unwind bound is reported and replayed under ASan)' % ('with' if p else 'without'),
     stubs=['fprintf etc.: empty bodies (not reached)'], out_of_claim='constructor parameter order, type definitions, importability of the whole module, names longer than the bound') for p in (0, 1)
+] + [
+  H('attr_name_reserved', 'c', 'harness/C18/h_reserved.c', repo_srcs=['src/exp2python/src/classes_python.c', 'src/exp2python/src/classes_misc_python.c'],
+    cflags=['-DHAVE_CONFIG_H', '-I/repo/src/exp2python/src'], native_cflags=['-DHAVE_CONFIG_H'], unwind_is_violation=True, models=['lib/cmodels/printf_null.c'],
+    unwind=40, object_bits=10,
+    bounds='the attribute name is any of the 32 lower-case Python 3 keywords or the builtin property (symbolic index), in any mix of letter cases (symbolic mask), with or without the SELF\\\\ prefix (symbolic)',
+    stubs=['fprintf etc.: empty bodies (not reached)'], out_of_claim='non-reserved names (attr_name_p0/p1), soft keywords (match, case), True/False/None (attribute names are lower-cased)')
 ]
 JOBS = 4
 MANIFEST = {
